@@ -1,0 +1,129 @@
+//go:build verif
+
+// Contracts (machine-checked by /verif/govc) for package mux.
+// This file contains comments only; it is compiled only with the build tag "verif" and adds no code.
+
+package mux
+
+// ---------------------------------------------------------------------------------------------
+// C10 / C11: the mux session table, its listeners and shutdown.
+// ---------------------------------------------------------------------------------------------
+
+//@ ghost yamux.Session.closed bool
+//@ ghost net.Conn.closed bool
+//@ ghost session.ManagedMuxSession.closed bool
+
+//@ extern (*yamux.Session).Close(s)
+//@   trusted hashicorp/yamux: closes the session
+//@   ensures s.closed
+//@   assigns s.closed
+//@ extern (net.Conn).Close(c)
+//@   ensures c.closed
+//@   assigns c.closed
+//@ extern (session.ManagedMuxSession).Close(s)
+//@   trusted session.muxSession.Close cancels the session lifetime; waitAndCleanup then closes session and connection
+//@   ensures s.closed
+//@   assigns s.closed
+//@ extern session.NewManagedMuxSession(parentLifetime, id, session, conn, builders, afterShutdown)
+//@   trusted the managed session owns session and conn: waitAndCleanup closes both when either the lifetime or the session ends and then calls afterShutdown once
+//@   ensures result != nil
+//@   assigns nothing
+//@ extern quiet (MuxProvider).MetricLabels
+//@ extern quiet (MuxProvider).WaitForClose
+//@ extern quiet (MuxProvider).AllowMoreConns
+//@ extern quiet (session.ManagedMuxSession).State
+//@ extern quiet (channel.ShutdownOnce).Shutdown
+//@ extern quiet (*prometheus.GaugeVec).WithLabelValues
+//@ extern quiet (prometheus.Gauge).Set
+
+// Listeners are invoked under the session-table lock with the current table.
+//@ extern $fn@(*multiMuxManager).notifyChange
+//@   assigns nothing
+//@ contract (*multiMuxManager).notifyChange
+//@   props C11
+//@   requires held(m.muxesLock)
+//@   callpre fn: @current_table: $0 == m.muxes && held(m.muxesLock)
+//@   assigns nothing
+
+// A new session is registered and announced inside one critical section; after shutdown the session and its
+// connection are closed (or owned by a managed session that closes them).
+//@ contract (*multiMuxManager).AddConnection
+//@   props C10 C11
+//@   requires m.muxes != nil && m.muxIdSequencer < 18446744073709551615
+//@   ensures @after_shutdown_closed: old(m.lifetime.Err() != nil) ==> yamuxSession.closed && conn.closed
+//@   callpre NewManagedMuxSession: @owns: $session == yamuxSession && $conn == conn && $parentLifetime == m.lifetime && m.lifetime.Err() == nil
+//@   callpre notifyChange: @after_insert: newId in m.muxes
+
+// The dead session is removed and the listeners are told, inside one critical section.
+//@ contract (*multiMuxManager).unregisterMux
+//@   props C10 C11
+//@   assigns contents(m.muxes)
+//@   requires m.muxes != nil
+//@   callpre notifyChange: @after_delete: !(id in m.muxes)
+
+// Shutdown waits for the provider and then closes every session in the table.
+//@ contract (*multiMuxManager).onClose
+//@   props C10
+//@   callpre WaitForClose: @before_lock: !held(m.muxesLock)
+//@   ensures @all_closed: forall k string :: { k in m.muxes } k in m.muxes ==> m.muxes[k].closed
+//@   loop 1 invariant forall k string :: { k in $seen } k in $seen ==> m.muxes[k].closed
+
+// ---------------------------------------------------------------------------------------------
+// C10: permit accounting of the connect loop (the goroutine started by muxProvider.Start).
+// Ghost `held` = permits this goroutine has acquired and neither released nor handed to a session.
+// ---------------------------------------------------------------------------------------------
+
+//@ ghost semaphore.Weighted.held int
+//@ extern (*semaphore.Weighted).Acquire(s, ctx, n)
+//@   trusted golang.org/x/sync/semaphore: blocks until n permits are available or ctx is done (then returns ctx.Err())
+//@   ensures result == nil ==> s.held == old(s.held) + n
+//@   ensures result != nil ==> s.held == old(s.held) && ctx.Err() != nil
+//@   assigns s.held
+//@ extern (*semaphore.Weighted).Release(s, n)
+//@   trusted releasing more than held panics ("semaphore: released more than held")
+//@   requires @not_more_than_held: s.held >= n
+//@   ensures s.held == old(s.held) - n
+//@   assigns s.held
+//@ extern (*semaphore.Weighted).TryAcquire(s, n)
+//@   ensures result ==> s.held == old(s.held) + n
+//@   ensures !result ==> s.held == old(s.held)
+//@   assigns s.held
+//@ extern quiet (connProvider).NewConnection
+//@ extern quiet (connProvider).CloseCh
+//@ extern quiet (*yamux.Session).Ping
+//@ extern quiet (*yamux.Session).RemoteAddr
+//@ extern quiet common.GetHost
+//@ extern quiet (*prometheus.CounterVec).WithLabelValues
+//@ extern quiet (prometheus.Counter).Inc
+//@ extern $m.sessionFn@(*muxProvider).Start$2
+//@   trusted yamux.Client / yamux.Server: a new open session or an error
+//@   ensures result1 == nil ==> result0 != nil && !result0.closed
+//@   assigns nothing
+// Handing the session to the manager transfers the permit with it (released by the session's afterShutdown callback).
+//@ extern $m.addNewMux@(*muxProvider).Start$2
+//@   requires @permit_transferred: m.muxPermits.held == 1
+//@   ensures m.muxPermits.held == 0
+//@   assigns m.muxPermits.held
+
+// Every iteration starts without permits: each failure branch releases exactly what it acquired, a successful
+// iteration hands its permit to the new session, the ping-failure branch closes the session and the connection
+// it created, and the loop gives up only when the lifetime has ended.
+//@ contract (*muxProvider).Start$2
+//@   props C10
+//@   requires m != nil && m.muxPermits != nil && m.muxPermits.held == 0
+//@   ensures @exit_only_on_shutdown: m.lifetime.Err() != nil
+//@   callpre Release.3: @ping_failure_closes: session != nil && session.closed && conn.closed
+//@   loop 1 invariant m != nil && m.muxPermits != nil && m.muxPermits.held == 0
+
+// The health probe is permit-neutral.
+//@ contract (*muxProvider).HasConnectionsAvailable
+//@   props C10
+//@   requires m.muxPermits != nil && m.muxPermits.held >= 0
+//@   ensures m.muxPermits.held == old(m.muxPermits.held)
+
+// When a session ends it is unregistered and its slot is given back (one permit).
+//@ contract (*multiMuxManager).AddConnection$1
+//@   props C10
+//@   requires m != nil && m.muxes != nil
+//@   callpre unregisterMux: @own_id: $id == newId
+//@   callpre AllowMoreConns: @one_permit: $amt == 1
